@@ -694,10 +694,38 @@ func genC19(g *Gen) {
 		for _, xv := range []d128.Decimal{x, g.variant(x)} {
 			g.bin2("Cmp", xv, y)
 			g.bin2("Cmp", y, xv)
+			g.bin2("CmpAbs", xv, y)
+			g.bin2("CmpAbs", y, xv)
 			g.bin2("Compare", xv, y)
 			g.bin2("Max", y, xv)
 		}
 	})
+	// the quantisation test matrix on the shortest encoding AND with one to three zeros appended to the coefficient (the same
+	// value, the same dp): digits are cut off in steps, and an appended zero shifts every digit into another step
+	{
+		var qjs []int
+		for j := 1; j <= 12; j++ {
+			qjs = append(qjs, j)
+		}
+		qg := tailGrid(qjs)
+		g.gridRun(len(qg), 0.15, func(i int) {
+			t := qg[i]
+			c := g.tailValue(t)
+			c.Add(c, new(big.Int).Mul(randDigits(g.r, 1+g.r.Intn(10)), pow10(t.j)))
+			e := g.r.Intn(21) - 10 - t.j
+			neg := g.r.Intn(2) == 0
+			dp := -(e + t.j)
+			m := g.r.Intn(6)
+			for z := 0; z <= 3; z++ {
+				x := mk(neg, new(big.Int).Mul(c, pow10(z)), e-z)
+				g.quant("Round", x, dp, m)
+				if z == 1 {
+					g.quant("Ceil", x, dp, 0)
+					g.quant("Floor", x, dp, 0)
+				}
+			}
+		})
+	}
 	g.encodingGrid(0.08, func(x d128.Decimal) {
 		g.un("Canonical", x)
 		g.un([]string{"Sqrt", "Cbrt", "String", "Frexp", "MarshalJSON", "IsZero", "Sign", "Float64", "Int"}[g.r.Intn(9)], x)
